@@ -8,6 +8,15 @@ Open Scope Q_scope.
 
 Definition tol : Q := 1 # 1000000000000.          (* 1e-12 *)
 
+(* a binary float m * 2^e as an exact rational (how the generated files pass
+   the implementation's doubles: short literals) *)
+Definition fl (m e : Z) : Q :=
+  match e with
+  | Z0 => m # 1
+  | Zpos p => (m * Z.pow 2 e) # 1
+  | Zneg p => m # (Pos.pow 2 p)
+  end.
+
 (* |impl - model| <= tol * (|model| + slack).  slack = 0 for pure scalings
    (relative error); 25 for the pressure formula, whose two terms 250 V/Vcc
    and 25 cancel (error relative to the size of the terms). *)
